@@ -1024,6 +1024,14 @@ def rule_t_mover(ctx):
                     R.viol("%s:bounded:early-exit" % path, body.where(Loc(x, len(body.stmts(x)))),
                            "the bounded mover leaves its loop early (bb%d -> bb%d) and returns (path %s) without having moved the full batch "
                            "and without freeing the old table" % (x, s_, w))
+        # (a') the loop is not bypassed: a path from the entry to a return that never enters the loop is one on which no old table is pending
+        #      (or frees it) — a mover that bails out for another reason leaves an old table behind that it was called to work off
+        n_edges = {e for e, v in left_test_edges(ctx, body, ignore_debug=False).items() if v == N}
+        w = _must_pass(body, [0], set(blocks) | cleared, n_edges)
+        if w is not None:
+            R.viol("%s:bounded:bypass" % path, body.where(Loc(w[-1], 0)),
+                   "the bounded mover can return (path %s) without entering its loop although an old table may be pending: that call moves nothing, and an "
+                   "old table that is already empty is not freed" % w)
         # (b) after exhaustion: empty test whose empty edge frees
         ee = old_empty_edges(ctx, body)
         ok_edges = set()
